@@ -119,6 +119,22 @@ pub fn gen_c02(rng: &mut Rng, thorough: bool) -> Vec<Tagged> {
             }
         }
     }
+    // "a network's prediction is the composition of its layers' outputs in order" on structured networks:
+    // predict / predict_batch (not only forward) with chained and shared-source skip connections, loops, blocks
+    for (k, acc) in crate::spec::ALL_ACCS.iter().enumerate() {
+        let layouts: Vec<Vec<(usize, usize)>> = vec![vec![(0, 1), (1, 2)], vec![(1, 2), (2, 3), (1, 4)]];
+        for (li, conns) in layouts.into_iter().enumerate() {
+            let n = 2 + (k + li) % 2;
+            let mut spec = crate::gen_net2::dense_chain(rng, n, 5, 1);
+            spec.skipacc = *acc;
+            spec.connect = conns;
+            crate::gen_net2::entry_point_cases(rng, &spec, Sh::Flat(n), &format!("structured-skip-{:?}-layout{}", acc, li), &mut out);
+        }
+    }
+    for r in 0..(if thorough { 12 } else { 4 }) {
+        let (spec, input, _) = crate::gen_net2::combo_net(rng, r, 1);
+        crate::gen_net2::entry_point_cases(rng, &spec, input, "structured-combination", &mut out);
+    }
     // threshold sweep: extents around the powers of two at which a blocked / vectorised / parallel
     // fast path would switch on (dense inputs and outputs, channels, filters, spatial extents)
     for &(i, o_) in &[(7usize, 9usize), (8, 8), (9, 7), (63, 2), (64, 3), (65, 2), (127, 1), (128, 2), (129, 1), (2, 63), (3, 64), (2, 65), (1, 128), (2, 129), (33, 33)] {
@@ -346,6 +362,35 @@ pub fn gen_c08(rng: &mut Rng, thorough: bool) -> Vec<Tagged> {
             LW::One(match next { Simple::Maxpool { .. } => W::None, _ => W::Kernels(vec![t3(1, 1, 1, &[1.0])]) }),
         ]);
         out.push((format!("{}-elements", tag), Case::Net(spec2, NetCmd::Forward(t1(rng.distinct(3))))));
+    }
+    // (b2) the same transition for HUGE flat sizes (r >= 256: beyond 2^16 elements, up to 2^20): perfect squares
+    //      are read as 1 x r x r, their neighbours are refused; every spatial kind
+    for (k, &n) in [65535usize, 65536, 65537, 66049, 66564, 262144, 263169, 1_000_000, 1_048_576, 1_048_577].iter().enumerate() {
+        if !(thorough || n < 300_000) {
+            continue;
+        }
+        for kind in 0..3 {
+            let next = match (kind + k) % 3 {
+                0 => Simple::Conv { filters: 1, kernel: (2, 3), stride: (2, 2), padding: (0, 0), dilation: (1, 1), act: Act::Linear, dropout: None },
+                1 => Simple::Maxpool { kernel: (2, 2), stride: (2, 2) },
+                _ => Simple::Deconv { filters: 1, kernel: (1, 2), stride: (1, 1), padding: (0, 0), act: Act::Linear, dropout: None },
+            };
+            let mut spec = NetSpec::new(Sh::Flat(1).to_shape());
+            spec.layers.push(LayerSpec::One(Simple::Dense { out: n, act: Act::Linear, bias: false, dropout: None }));
+            spec.layers.push(LayerSpec::One(next.clone()));
+            let r = isqrt(n);
+            out.push((format!("flathuge{}-to-{}", if r * r == n { "square" } else { "nonsquare" }, next.kind()), Case::Net(spec, NetCmd::Shapes)));
+        }
+    }
+    // element preservation at 257 x 257 (66049 values) through a max-pool with a large window
+    {
+        let n = 66049usize;
+        let mut spec = NetSpec::new(Sh::Flat(1).to_shape());
+        spec.layers.push(LayerSpec::One(Simple::Dense { out: n, act: Act::Linear, bias: false, dropout: None }));
+        spec.layers.push(LayerSpec::One(Simple::Maxpool { kernel: (64, 64), stride: (64, 64) }));
+        let w: Vec<f32> = (0..n).map(|i| ((i * 7919) % 66049) as f32 * 0.001).collect();
+        spec.weights = Some(vec![LW::One(W::Dense(t2(n, 1, &w), None)), LW::One(W::None)]);
+        out.push(("flathugesquare-to-maxpool-elements".into(), Case::Net(spec, NetCmd::Forward(t1(vec![1.5])))));
     }
     // (c) random sequences with dense <-> spatial transitions: announced vs produced along the chain
     let reps = if thorough { 400 } else { 60 };
